@@ -28,6 +28,8 @@ type c17MeasureParams struct {
 	Mode    string `json:"mode"`
 	Conc    int    `json:"conc"`
 	Desc    string `json:"desc"`
+	// Interrupt: the run is interrupted (context cancelled) from inside its last iteration, before that body's work
+	Interrupt bool `json:"interrupt,omitempty"`
 }
 
 type c17AggParams struct {
@@ -59,7 +61,8 @@ func init() {
 					p.CleanUS = append(p.CleanUS, 15000+r.IntN(25000))
 					p.Kinds = append(p.Kinds, pick(r, engine.BPass, engine.BPass, engine.BFail, engine.BFailNow, engine.BRequire, engine.BPanicString, engine.BPanicError, engine.BFatal))
 				}
-				p.Desc = fmt.Sprintf("mode=%s n=%d tick=%d workers=%d", p.Mode, p.N, p.Tick, p.Conc)
+				p.Interrupt = i%4 == 1
+				p.Desc = fmt.Sprintf("mode=%s n=%d tick=%d workers=%d interrupted=%v", p.Mode, p.N, p.Tick, p.Conc, p.Interrupt)
 				cse := core.MkCase("C17", "measure", i, seed, p)
 				cse.Race = i%2 == 0
 				cse.Procs = pick(r, 1, 2, 16)
@@ -197,6 +200,11 @@ func c17Measure(c *core.Case, o *core.Outcome) {
 					defer f1testing.CheckResults(t, hd)
 				}()
 				<-hd
+			}
+			if p.Interrupt && id == p.N {
+				// the run is interrupted while this iteration executes; what was recorded before stays recorded, and
+				// this iteration is measured like any other
+				cancel()
 			}
 			spin(time.Duration(p.BodyUS[i]) * time.Microsecond)
 			engine.Behave(t, kind)
